@@ -918,7 +918,7 @@ fn cache(sink: &mut Sink, o: &Opts) {
                 }
                 // the same file at an address that is 4 modulo 8 (a header only needs 4-byte alignment): every strict
                 // prefix is rejected or answers the probe queries like the full file at that address does
-                if bytes.len() <= 600 {
+                if bytes.len() <= 600 && k < 10 {
                     let at4 = |b: &[u8]| -> (Value, Vec<Value>) {
                         let padded = [vec![0u8; 4], b.to_vec()].concat();
                         let store = crate::handles::Aligned::new(&padded);
